@@ -717,3 +717,18 @@ def matnf(prog, fi, e):
             a, b = matnf(prog, fi, e.func.value), matnf(prog, fi, e.args[0])
             return None if a is None or b is None else a + b
     return [(e, False, False)]
+
+
+INV_FUNCS = ("numpy.linalg.inv", "numpy.linalg.pinv", "scipy.linalg.inv", "scipy.linalg.pinv")
+
+
+def sliced_inverse_sites(prog, fi):
+    """[(subscript node, inverse call)] where a proper slice is taken OF an inverse (directly or through a variable):
+    a block of inv(A) is not the inverse of the block of A"""
+    out = []
+    for sub in ast.walk(fi.node):
+        if isinstance(sub, ast.Subscript) and any(isinstance(x, ast.Slice) and not is_full_slice(x) for x in index_elts(sub)):
+            x = expr_at(fi, sub, sub.value)
+            if isinstance(x, ast.Call) and callee_name(prog, fi, x) in INV_FUNCS:
+                out.append((sub, x))
+    return out
